@@ -9,6 +9,22 @@ def showVal : Val → String
   | none => "-"
   | some v => toString v
 
+/-- `UpdateWithFilter` / `DeleteWithFilter` inside transaction `i`: the documents are selected by the transaction's own
+    view (snapshot overlaid with its writes); each selected document is read and written -/
+def filterOp (db : DB) (i bound : Nat) (v : Val) : DB × String :=
+  match db.txn? i with
+  | none => (db, "notlive")
+  | some t =>
+    if !t.live then (db, "notlive")
+    else
+      let targets := (List.range 16).filter (fun k =>
+        match t.see db.versions k with
+        | some x => decide (x < bound)
+        | none => false)
+      let db' := targets.foldl (fun db k =>
+        (Defra.Mvcc.step (Defra.Mvcc.step db (.read i k)).1 (.write i k v)).1) db
+      (db', if targets.isEmpty then "-" else ",".intercalate (targets.map toString))
+
 def step (db : DB) (toks : List String) : DB × String :=
   let nat (s : String) : Nat := s.toNat?.getD 0
   match toks with
@@ -27,6 +43,8 @@ def step (db : DB) (toks : List String) : DB × String :=
     -- an update reads the document (footprint: read + write)
     let db1 := (Defra.Mvcc.step db (.read (nat i) (nat k))).1
     ((Defra.Mvcc.step db1 (.write (nat i) (nat k) (some (nat v)))).1, "ok")
+  | ["setf", i, bound, v] => filterOp db (nat i) (nat bound) (some (nat v))
+  | ["delf", i, bound] => filterOp db (nat i) (nat bound) none
   | ["blindset", i, k, v] => ((Defra.Mvcc.step db (.write (nat i) (nat k) (some (nat v)))).1, "ok")
   | ["del", i, k] =>
     let db1 := (Defra.Mvcc.step db (.read (nat i) (nat k))).1
